@@ -1,5 +1,6 @@
 CONSTANT MaxN = 4
 CONSTANT Pools = {{0,1,2,3},{3,7,11,5}}
+CONSTANT SlimTop = FALSE
 INIT Init
 NEXT Next
 INVARIANT Emitted
